@@ -426,6 +426,8 @@ OWNERS = {
     'C01.malformed-range': ['C01'],
     'C09.malformed-with-replacement': ['C09'],
     'C09.had-errors': ['C09', 'C02'],
+    'C11.had-errors': ['C11', 'C09'],
+    'C11.enc-had-unmappables': ['C11', 'C09'],
     'C09.manual-differs': ['C09'],
     'C09.enc-manual-differs': ['C09'],
     'C10.encoding': ['C10'],
